@@ -15,8 +15,8 @@ impl Prop for Ledger {
     }
     fn cases(tier: Tier) -> u32 {
         match tier {
-            Tier::Quick => 30_000,
-            Tier::Thorough => 3_000_000,
+            Tier::Quick => 150_000,
+            Tier::Thorough => 6_000_000,
         }
     }
     fn floors() -> Vec<(&'static str, u32)> {
